@@ -171,6 +171,25 @@ def rule_optmap(text, fn_name, log):
     return text[:ls] + new + text[pclose + 1:]
 
 
+def rule_optmap_ident(text, fn_name, ident, log):
+    """R-optmap (identifier receiver): in `fn_name`, `IDENT.map(|x| E)` -> `(match IDENT { Some(x) => Some(E), None => None })`."""
+    msk = rs.mask(text)
+    blocks = find_blocks(text, msk)
+    hits = [f for f in find_fns(text, msk, blocks) if f.name == fn_name and f.has_body]
+    if len(hits) != 1:
+        raise ExtractError('R-optmap: expected exactly one fn %s, found %d' % (fn_name, len(hits)))
+    f = hits[0]
+    m = re.compile(r'\b%s\s*\.map\s*\(\s*\|\s*(\w+)\s*\|' % re.escape(ident)).search(msk, f.body_open, f.body_close)
+    if not m:
+        raise ExtractError('R-optmap: no `%s.map(|x| ..)` in %s' % (ident, fn_name))
+    paren = text.index('(', m.start())
+    pclose = rs.match_close(msk, paren)
+    body = text[m.end():pclose]
+    new = '(match %s { Some(%s) => Some(%s), None => None })' % (ident, m.group(1), body.strip())
+    log.rule('R-optmap', '%s: %s.map' % (fn_name, ident))
+    return text[:m.start()] + new + text[pclose + 1:]
+
+
 def apply_sidecar_cfg(text, cfg):
     """Sidecar lines may be restricted to configurations with a leading `@@if <pred>` ... `@@endif` block.
     Predicates use the cfg syntax of Rust (feature = "..", debug_assertions, not/all/any)."""
@@ -365,6 +384,49 @@ def rule_continue(text, log):
         b_close = rs.match_close(msk, b_open)
         if msk[b_open + 1:b_close].strip() != msk[m.start():m.end()].strip():
             raise ExtractError('R-continue: `continue` is not the only statement of its block')
+        # tail variant: if nothing but closing braces / arm commas follows on the way up to the loop body, `continue` is a no-op
+        def enclosing(pos_open):
+            depth = 0
+            k = pos_open - 1
+            while k >= 0:
+                if msk[k] == '}':
+                    depth += 1
+                elif msk[k] == '{':
+                    if depth == 0:
+                        return k
+                    depth -= 1
+                k -= 1
+            return -1
+
+        def header_of(k_open):
+            hs = max(msk.rfind(';', 0, k_open), msk.rfind('}', 0, k_open), msk.rfind('{', 0, k_open), msk.rfind(',', 0, k_open)) + 1
+            return msk[hs:k_open].strip()
+
+        cur_open, cur_close = b_open, b_close
+        tail = False
+        for _ in range(50):
+            hdr = header_of(cur_open)
+            if re.match(r"^(?:'\w+\s*:\s*)?(for|while|loop)\b", hdr):
+                tail = True
+                break
+            par_open = enclosing(cur_open)
+            if par_open < 0:
+                break
+            par_close = rs.match_close(msk, par_open)
+            if hdr.endswith('=>'):
+                # a match arm body: control continues after the whole match block
+                cur_open, cur_close = par_open, par_close
+                continue
+            j = cur_close + 1
+            while j < par_close and (msk[j].isspace() or msk[j] == ','):
+                j += 1
+            if j != par_close:
+                break          # something follows inside the parent block
+            cur_open, cur_close = par_open, par_close
+        if tail:
+            text = text[:m.start()] + ' ' * (m.end() - m.start()) + text[m.end():]
+            log.rule('R-continue', 'tail position: dropped')
+            continue
         # enclosing block of the `if`
         depth = 0
         i = b_open - 1
@@ -432,8 +494,10 @@ MACRO_ITEMS = [
                                              ('struct', 'ParseComponent')]),
     ('macros/src/parse/attribute.rs', 'pattr', [('impl', 'HasAttributeId for ParseArchetype'), ('impl', 'HasAttributeId for ParseComponent')]),
     ('macros/src/parse/cfg.rs', 'pcfg', [('struct', 'ParseCfgDecorated')]),
+    ('macros/src/parse/query.rs', 'pquery', [('struct', 'ParseQueryParam'), ('enum', 'ParseQueryParamType')]),
     ('macros/src/data.rs', 'data', [('struct', 'DataWorld'), ('struct', 'DataArchetype'), ('struct', 'DataComponent'),
                                     ('impl', 'DataWorld'), ('impl', 'DataArchetype'), ('fn', 'evaluate_cfgs'), ('fn', 'advance_attribute_id')]),
+    ('macros/src/generate/query.rs', 'query', [('fn', 'bind_query_params'), ('fn', 'bind_one_of')]),
 ]
 
 
@@ -468,6 +532,8 @@ def build_macros_unit(cfg, n, outdir):
         text = rule_panic(text, rel, table, log)
         text = rule_regex(text, log, 'R-vis', r'\bpub\((?:crate|super)\)', 'pub')
         text = rule_continue(text, log)
+        if rel == 'macros/src/generate/query.rs':
+            text = rule_optmap_ident(text, 'bind_one_of', 'found', log)
         fspec = sc.files.get(rel) or sidecar.FileSpec(rel)
         text, _ = apply_contracts(text, fspec, log, rel, None)
         body.append('// ======== %s\n' % rel + text)
